@@ -995,7 +995,9 @@ func (e *Exec) Valid(op Op) bool {
 		}
 	case "NewSentinel":
 		return user(op.A)
-	case "FireSentinel", "Unwatch":
+	case "Unwatch": // also of a sentinel that no longer watches (a no-op)
+		return op.A >= 0 && op.A < len(e.Nodes) && e.Nodes[op.A] != nil && e.Nodes[op.A].Kind == "Sentinel"
+	case "FireSentinel":
 		return op.A >= 0 && op.A < len(e.Nodes) && e.Nodes[op.A] != nil && e.Nodes[op.A].Kind == "Sentinel" && e.Nodes[op.A].Watched >= 0
 	case "PurgeMemo", "ClearMemo":
 		return kind(op.A, "BindMain") && e.Nodes[op.A].Bind.Memo != nil
